@@ -64,7 +64,7 @@ func HasExtension(msg interface{}, ext interface{}) bool {
 	switch MsgType(msg) {
 	case MessageTypeGoogleV1:
 		ed, ok := ext.(*google.ExtensionDesc)
-		if !ok {
+		if !ok || !extendsV1(msg, ed) {
 			return false
 		}
 		return google.HasExtension(msg.(google.Message), ed)
@@ -93,7 +93,7 @@ func HasExtension(msg interface{}, ext interface{}) bool {
 func ClearExtension(msg interface{}, ext interface{}) {
 	switch MsgType(msg) {
 	case MessageTypeGoogleV1:
-		if ed, ok := ext.(*google.ExtensionDesc); ok {
+		if ed, ok := ext.(*google.ExtensionDesc); ok && extendsV1(msg, ed) {
 			google.ClearExtension(msg.(google.Message), ed)
 			return
 		}
@@ -127,7 +127,7 @@ func GetExtension(msg interface{}, ext interface{}) (interface{}, error) {
 		return google.GetExtension(msg.(google.Message), ed)
 	case MessageTypeGoogle:
 		et, ok := ext.(protoreflect.ExtensionType)
-		if !ok {
+		if !ok || !extendsV2(msg, et) {
 			return nil, fmt.Errorf("invalid extension type %T", ext)
 		}
 		return googlev2.GetExtension(msg.(googlev2.Message), et), nil
@@ -154,7 +154,7 @@ func SetExtension(msg interface{}, ext interface{}, val interface{}) error {
 		return google.SetExtension(msg.(google.Message), ed, val)
 	case MessageTypeGoogle:
 		et, ok := ext.(protoreflect.ExtensionType)
-		if !ok {
+		if !ok || !extendsV2(msg, et) {
 			return fmt.Errorf("invalid extension type %T", ext)
 		}
 		googlev2.SetExtension(msg.(googlev2.Message), et, val)
@@ -205,4 +205,18 @@ func ExtensionFieldNumber(ext any) (int, error) {
 	default:
 		return 0, fmt.Errorf("unsupported proto2 extension descriptor type %T", ext)
 	}
+}
+
+// extendsV1 reports whether the extension described by ed extends the (Google V1) message msg.
+//
+// *google.ExtensionDesc is also the type of the descriptors generated for Google V2 messages, so the
+// Go type alone does not tell whether a descriptor belongs to msg.
+func extendsV1(msg interface{}, ed *google.ExtensionDesc) bool {
+	mr := google.MessageReflect(msg.(google.Message))
+	return mr != nil && ed.TypeDescriptor().ContainingMessage().FullName() == mr.Descriptor().FullName()
+}
+
+// extendsV2 reports whether the extension type et extends the (Google V2) message msg.
+func extendsV2(msg interface{}, et protoreflect.ExtensionType) bool {
+	return et.TypeDescriptor().ContainingMessage().FullName() == msg.(googlev2.Message).ProtoReflect().Descriptor().FullName()
 }
